@@ -112,6 +112,8 @@ type ExecResult struct {
 	Fired   int // virtual timers fired
 	Threads int
 	Desc    []string // per-decision description (only when Describe is on)
+	Rdv     [][2]int // rendezvous in order: {sender thread, receiver thread}
+	Sends   []int    // sender thread of every granted channel send, in order (buffered or rendezvous)
 }
 
 func (x *ExecResult) Choices() []int {
@@ -251,7 +253,7 @@ func (s *sched) spawn(fn func(), name string) *thread {
 				if r != nil {
 					buf := make([]byte, 16<<10)
 					n := runtime.Stack(buf, false)
-					s.finish("panic", fmt.Sprintf("thread %d panicked: %v\n%s", t.id, r, trimStack(string(buf[:n]))))
+					s.finish("panic", fmt.Sprintf("thread %d panicked: %v at %s", t.id, r, trimStack(string(buf[:n]))))
 				} else if t.id == 0 {
 					s.finish("ok", "")
 				} else {
@@ -274,16 +276,36 @@ func (s *sched) spawn(fn func(), name string) *thread {
 }
 
 func trimStack(st string) string {
+	// keep "function file:line" frames only: no goroutine ids, no argument words
 	lines := strings.Split(st, "\n")
 	var out []string
-	for i := 0; i < len(lines) && len(out) < 24; i++ {
+	for i := 0; i+1 < len(lines) && len(out) < 12; i++ {
 		l := lines[i]
-		if strings.Contains(l, "verifrt.(*sched).spawn") || strings.Contains(l, "runtime/panic.go") || strings.Contains(l, "panic(") {
+		if l == "" || strings.HasPrefix(l, "goroutine ") || strings.HasPrefix(l, "\t") {
 			continue
 		}
-		out = append(out, strings.TrimSpace(l))
+		nx := strings.TrimSpace(lines[i+1])
+		if !strings.HasPrefix(lines[i+1], "\t") {
+			continue
+		}
+		if j := strings.LastIndex(l, "("); j > 0 {
+			l = l[:j]
+		}
+		if strings.HasPrefix(l, "runtime.") || strings.HasPrefix(l, "panic") || strings.HasPrefix(l, "verifrt.") {
+			continue
+		}
+		if j := strings.Index(nx, " +0x"); j > 0 {
+			nx = nx[:j]
+		}
+		if j := strings.LastIndex(nx, "/"); j >= 0 {
+			nx = nx[j+1:]
+		}
+		if j := strings.LastIndex(l, "/"); j >= 0 {
+			l = l[j+1:]
+		}
+		out = append(out, l+"@"+nx)
 	}
-	return strings.Join(out, " | ")
+	return strings.Join(out, " < ")
 }
 
 // finish ends the execution: everything still alive is aborted. s.mu held.
@@ -595,6 +617,8 @@ func (s *sched) apply(tr trans) {
 		// rendezvous: receiver runs its step first; the sender physically performs the
 		// real send (which meets the receiver) and then waits for the baton.
 		b := s.threads[tr.b]
+		s.res.Rdv = append(s.res.Rdv, [2]int{tr.a, tr.b})
+		s.res.Sends = append(s.res.Sends, tr.a)
 		b.parked = false
 		s.running++
 		b.wake <- tr.cb
@@ -620,6 +644,12 @@ func (s *sched) apply(tr trans) {
 		o.rw.pendingW++
 	case opClose:
 		s.closed[o.c.ch] = true
+	case opSend:
+		s.res.Sends = append(s.res.Sends, tr.a)
+	case opSelect:
+		if tr.ca >= 0 && o.cases[tr.ca].dir == dirSend {
+			s.res.Sends = append(s.res.Sends, tr.a)
+		}
 	}
 	a.parked = false
 	s.running++
@@ -866,6 +896,21 @@ func Logf(format string, a ...any) {
 // stamp order is real-time order).
 func Stamp() int64 {
 	return atomic.AddInt64(&s.clock, 1)
+}
+
+// Rendezvous returns the {sender, receiver} thread pairs of all unbuffered channel
+// hand-overs so far in this execution, in order.
+func Rendezvous() [][2]int {
+	s.mu.Lock()
+	defer s.mu.Unlock()
+	return append([][2]int(nil), s.res.Rdv...)
+}
+
+// Sends returns the sender thread of every channel send granted so far, in order.
+func Sends() []int {
+	s.mu.Lock()
+	defer s.mu.Unlock()
+	return append([]int(nil), s.res.Sends...)
 }
 
 // FiredTimers returns how many virtual timers fired so far in this execution.
